@@ -12,27 +12,32 @@
 (* Every step is one Bus action whose `out` is the next piece of the trace.   *)
 (* Accepted iff the whole trace is consumed (prints <<"ACCEPT", id>>).        *)
 EXTENDS Bus, Json, IOUtils
-VARIABLES tid, l
-tvars == << vars, tid, l >>
+VARIABLES tid, l, lastc          \* lastc: the last consumed effect was a commit
+tvars == << vars, tid, l, lastc >>
 
 TPageSeq == << "a.zo", "b.zo", "c.zo" >>
-TCli == << "a.zo" >>
-TKaPaths == { [paths |-> << "b.zo", "a.zo" >>, focus |-> "a.zo"], [paths |-> << "c.zo" >>, focus |-> "c.zo"] }
+TCli == << "a.zo", "q.zoq" >>
+TZoq == { "q.zoq" }
+TKaPaths == { [paths |-> << "b.zo", "a.zo" >>, focus |-> "a.zo"], [paths |-> << "c.zo" >>, focus |-> "c.zo"],
+              [paths |-> << "q.zoq", "b.zo" >>, focus |-> "q.zoq"] }
 
 Recs == ndJsonDeserialize(IOEnv.ZV_TRACE)
 T == Recs[tid]
 Diag == "ZV_DIAG" \in DOMAIN IOEnv /\ IOEnv.ZV_DIAG = "1"
 
-TInit == Init /\ tid \in DOMAIN Recs /\ l = 1
+TInit == Init /\ tid \in DOMAIN Recs /\ l = 1 /\ lastc = FALSE
 
-Consume == /\ l + Len(out') - 1 <= Len(T.trace)
-           /\ out' = SubSeq(T.trace, l, l + Len(out') - 1)
-           /\ l' = l + Len(out')
+\* runs of commits are one observable ("one or more commits"), also across two actions
+Eff == IF lastc /\ out' # << >> /\ out'[1] = Commit THEN Tail(out') ELSE out'
+Consume == /\ l + Len(Eff) - 1 <= Len(T.trace)
+           /\ Eff = SubSeq(T.trace, l, l + Len(Eff) - 1)
+           /\ l' = l + Len(Eff)
+           /\ lastc' = IF Eff = << >> THEN lastc ELSE Eff[Len(Eff)] = Commit
            /\ UNCHANGED tid
            /\ (Diag => PrintT(<< "AT", T.id, l' >>))
 
 TNext == \/ (Next /\ Consume)
-         \/ /\ l = Len(T.trace) + 1 /\ ~running /\ l' = l + 1 /\ UNCHANGED << vars, tid >>
+         \/ /\ l = Len(T.trace) + 1 /\ ~running /\ l' = l + 1 /\ UNCHANGED << vars, tid, lastc >>
             /\ PrintT(<< "ACCEPT", T.id >>)
 TraceSpec == TInit /\ [][TNext]_tvars
 =============================================================================
